@@ -182,7 +182,7 @@ strAMatch(String s1, String s2)
 {
 	Length   n;
 	for (n = 0; *s1 && *s2; s1++, s2++, n++)
-		if (tolower(*s1) != tolower(*s2)) return n;
+		if (tolower((unsigned char) *s1) != tolower((unsigned char) *s2)) return n;
 	return n;
 }
 
@@ -231,7 +231,7 @@ strAIsSuffix(String suf, String s)
 	if (ns < nsuf) return 0;
 	suf0 = s + (ns - nsuf);
 	for (s = suf0; *suf && *s; suf++, s++)
-		if (tolower(*suf) != tolower(*s)) return 0;
+		if (tolower((unsigned char) *suf) != tolower((unsigned char) *s)) return 0;
 	return suf0;
 }
 	
@@ -239,7 +239,7 @@ Bool
 strAEqual(String s1, String s2)
 {
 	for ( ; *s1 && *s2; s1++, s2++)
-		if (tolower(*s1) != tolower(*s2)) return false;
+		if (tolower((unsigned char) *s1) != tolower((unsigned char) *s2)) return false;
 
 	return *s1 == *s2;	/* True iff both '\0' */
 }
